@@ -201,6 +201,45 @@ func c19Tables(p *core.Program, r *core.Report) {
 			return true
 		})
 		r.Check(start >= 0 && int(start) < len(wd) && wd[start] == "Sat" && len(wd) == 7, "C19.tables", "util/dateutil.open weekday start", p.Pos(fi.Decl.Pos()), "2000-01-01 is a Saturday", fmt.Sprintf("weekday enumeration starts at index %d of %v, which is not Saturday", start, wd))
+		// the weekday index advances by one and wraps after the last name: `if i == N-1 { i = 0 } else { i++ }`
+		// or `i = (i + 1) % N` with N the number of weekday names
+		if idxObj != nil && len(wd) > 0 {
+			wrapOK, wrapSeen := false, ""
+			isIdx := func(e ast.Expr) bool {
+				id, ok := ast.Unparen(e).(*ast.Ident)
+				return ok && finfo.ObjectOf(id) == idxObj
+			}
+			ast.Inspect(fi.Decl.Body, func(m ast.Node) bool {
+				switch v := m.(type) {
+				case *ast.IfStmt:
+					if be, ok := ast.Unparen(v.Cond).(*ast.BinaryExpr); ok && isIdx(be.X) {
+						if k, ok := constIntOf(finfo, be.Y); ok {
+							switch be.Op {
+							case token.EQL, token.GEQ:
+								wrapSeen = fmt.Sprintf("wraps at index %d", k)
+								wrapOK = k == int64(len(wd)-1)
+							case token.GTR:
+								wrapSeen = fmt.Sprintf("wraps above index %d", k)
+								wrapOK = k == int64(len(wd)-2)
+							}
+						}
+					}
+				case *ast.AssignStmt:
+					if len(v.Lhs) == 1 && len(v.Rhs) == 1 && isIdx(v.Lhs[0]) {
+						if be, ok := ast.Unparen(v.Rhs[0]).(*ast.BinaryExpr); ok && be.Op == token.REM {
+							if k, ok := constIntOf(finfo, be.Y); ok {
+								wrapSeen = fmt.Sprintf("wraps modulo %d", k)
+								wrapOK = k == int64(len(wd))
+							}
+						}
+					}
+				}
+				return true
+			})
+			if wrapSeen != "" {
+				r.Check(wrapOK, "C19.tables", "util/dateutil.open weekday wrap", p.Pos(fi.Decl.Pos()), wrapSeen, fmt.Sprintf("the weekday index %s but there are %d weekday names: a name is skipped (or the table is overrun) every week", wrapSeen, len(wd)))
+			}
+		}
 		step := false
 		dayMs := func(e ast.Expr) bool { v, ok := constIntOf(finfo, e); return ok && v == 86400000 }
 		ast.Inspect(fi.Decl.Body, func(m ast.Node) bool {
